@@ -54,16 +54,20 @@ def tree_hash():
 
 
 def prune(keep):
-    """Keep the disk footprint bounded: only the newest 3 cached builds survive."""
+    """Keep the disk footprint bounded: only the newest 4 cached builds survive."""
     if not os.path.isdir(CACHE):
         return
     ent = []
     for n in os.listdir(CACHE):
         p = os.path.join(CACHE, n)
         if n != keep and os.path.isdir(p):
+            # a build directory of another process that is still being filled (checks may run concurrently against
+            # different trees) is left alone until it is clearly abandoned
+            if ".tmp" in n and time.time() - os.path.getmtime(p) < 1800:
+                continue
             ent.append((os.path.getmtime(p), p))
     ent.sort(reverse=True)
-    for _, p in ent[2:]:
+    for _, p in ent[3:]:
         shutil.rmtree(p, ignore_errors=True)
 
 
